@@ -119,6 +119,13 @@ def run(chk):
     cG = build({"a": ("input", []), "b": ("input", [])}, outputs=["a"])
     cases.append(("feed-through::only output is an input", cG, cG.copy(), None, None))
     cases.append(("feed-through::explicit endpoints a,g", cF, retyped(cF, "g", "nand"), None, {"a", "g"}))
+    # a feed-through endpoint (an input marked as output) whose two copies can differ: nothing tied, default endpoints; and one
+    # that is an input in one circuit and a gate of that name in the other
+    cases.append(("feed-through::default endpoints, nothing tied", cF, cF.copy(), set(), None))
+    cases.append(("feed-through::default endpoints, nothing tied, self-miter", cF, None, set(), None))
+    cF2 = build({"b": ("input", []), "c": ("input", []), "a": ("or", ["b", "c"]), "g": ("and", ["a", "b"])}, outputs=["a", "g"])
+    cases.append(("feed-through::an input of one circuit is a gate of the other", cF, cF2, None, None))
+    cases.append(("feed-through::an input of one circuit is a gate of the other::swapped", cF2, cF, None, None))
     # untied startpoints with default endpoints: the differing endpoint depends only on tied inputs
     cH = build({"a": ("input", []), "b": ("input", []), "o1": ("not", ["a"]), "o2": ("and", ["a", "b"])}, outputs=["o1", "o2"])
     cI = build({"a": ("input", []), "b": ("input", []), "o1": ("buf", ["a"]), "o2": ("and", ["a", "b"])}, outputs=["o1", "o2"])
